@@ -27,7 +27,14 @@ func deref(s *string) string {
 }
 
 func check(c corsref.Case, st *rig.Stats) error {
-	w := corsref.Build(c)
+	w, pv, panicked := corsref.TryBuild(c)
+	if panicked {
+		if c.Cfg.Refused() {
+			st.Eval(c, false, "configuration-refused('*'-with-credentials)")
+			return nil
+		}
+		return rig.Violf("construction-panicked", "building the router for %+v panicked: %v", c.Cfg, pv)
+	}
 	nontriv := false
 	var classes []string
 	for i, q := range c.Reqs {
